@@ -42,6 +42,12 @@ def f1_pattern(s):
     return False
 
 
+def PGtree_nodes(node):
+    yield None, node
+    for c in node.children:
+        yield from PGtree_nodes(c)
+
+
 def gen_strings(r, quick):
     g = PG.QGen(r, bad_numbers=0.03)
     strings = list(PG.MALFORMED)
@@ -83,7 +89,22 @@ def correspond(model_ok, res):
         if len(s) > 3:
             seen.add(s)
         events_cases.append("(%s, %s, %s)" % (lib.g_str(s), lib.g_bool(f1), lib.g_bool(printed == s)))
-    res.cases = len(strings)
+    # history: a tree returned earlier may have been edited in place by the caller; parsing the same text again
+    # must still give the tree that prints the text (a parse result is not shared with later calls)
+    hist = [s for s, (k, _) in zip(strings, results) if k == "ok"][: (60 if quick else 400)]
+    for s in hist:
+        t1 = parser.parse(s)
+        g1 = lib.g_item(t1)
+        for _, n in list(PGtree_nodes(t1))[:4]:
+            n.head = "##" + n.head
+            if hasattr(n, "value") and isinstance(n.value, str):
+                n.value = n.value + "zz"
+        t2 = parser.parse(s)
+        if lib.g_item(t2) != g1:
+            res.failures.append(({"input": s, "history": ["parse(input)", "edit the returned tree in place",
+                                                          "parse(input) again"],
+                                  "why": "the second parse of the same text does not return the original tree"}, None))
+    res.cases = len(strings) + len(hist)
     res.nontrivial = len(seen)
     res.rule = ("grammar-directed queries over every production with random Unicode-whitespace layout, "
                 "blank-separated variants (blanks before ':'), all token-type sequences up to length 2 "
